@@ -511,6 +511,8 @@ func knownHolds(r *projResult) bool {
 		return c.Resolver != "none"
 	case "omit_resolver_fields":
 		return c.Bools["omit_resolver_fields"] == 1 && c.Bools["omit_getters"] != 1
+	case "root_typed_field":
+		return c.Bools["omit_root_models"] == 1
 	}
 	return true
 }
